@@ -21,7 +21,7 @@ func TestC12(t *testing.T) {
 	mon.Main(t, mon.Check{
 		ID:    "C12",
 		Level: "exploration",
-		Rule:  "each case draws a GBN scenario (random N, timeouts, keepalive, latency, mild faults, bidirectional traffic with idle gaps), runs it once to collect the virtual instants of its wire events, then re-runs it K times injecting Close at one of those instants (-1ns/0/+1ns) or at a random instant, by client / server / both at the same instant / twice concurrently, with the transport working / blackholed / its send blocking until cancellation; plus handshake-phase cancellation cases. Oracles: Close returns within finSendTimeout+2s of virtual time (it must not wait for resend or sync timers); later Send/Recv fail at once; FIN on the wire when the transport works; peer closes itself when the FIN is delivered; every blocked caller returns; no goroutine of gbn alive in the bubble afterwards. Non-trivial = a Close was injected while the connection was open; distinct = (closer, transport condition, phase bucket, what the send loop was doing).",
+		Rule:  "each case draws a GBN scenario (random N, timeouts, keepalive, latency, mild faults, bidirectional traffic with idle gaps), runs it once to collect the virtual instants of its wire events, then re-runs it K times injecting Close at one of those instants (-1ns/0/+1ns) or at a random instant, by client / server / both at the same instant / twice concurrently, with the transport working / blackholed / its send blocking until cancellation; plus handshake-phase cancellation cases, a real-time slice with a transport whose send blocks, and a real-time slice that runs a scripted mailbox-level session (closes by either side, relay failures, Server.Close) and then takes the goroutine census of the process. Oracles: Close returns within finSendTimeout+2s of virtual time (it must not wait for resend or sync timers); later Send/Recv fail at once; FIN on the wire when the transport works; peer closes itself when the FIN is delivered; every blocked caller returns; no goroutine of gbn alive in the bubble afterwards. Non-trivial = a Close was injected while the connection was open; distinct = (closer, transport condition, phase bucket, what the send loop was doing).",
 		Assumptions: []string{
 			"goroutine census covers goroutines, not bare time.Ticker objects without a goroutine",
 			"virtual time (synctest): bounds are exact, schedules sampled",
@@ -55,6 +55,10 @@ func runC12(c *mon.Case) {
 	}
 	if c.Idx%16 == 6 {
 		runC12BlockSend(c)
+		return
+	}
+	if c.Idx%60 == 59 {
+		runC12Mailbox(c)
 		return
 	}
 	rng := c.Rng
@@ -592,4 +596,36 @@ func runC12BlockSend(c *mon.Case) {
 	}
 	c.Shard.Eval("blocksend|" + who)
 	c.Shard.Count("blocking_transport_closes", 1)
+}
+
+// runC12Mailbox closes connections at the mailbox level (ClientConn.Close,
+// ServerConn.Close/Stop through Server.Close, closes by either side, relay
+// failures) by running one scripted session of the C11 engine on the real
+// clock, and then takes the goroutine census of the whole worker process: once
+// the session is stopped nothing may be left in gbn or mailbox code.
+func runC12Mailbox(c *mon.Case) {
+	r := c11Session(c.Rng.Int63(), 90*time.Second)
+	if c12Frozen.Load() {
+		c.Shard.Inconc("census skipped: a frozen bubble of an earlier case left goroutines behind in this worker")
+		return
+	}
+	var lk []eng.Goroutine
+	for i := 0; i < 40; i++ {
+		time.Sleep(500 * time.Millisecond)
+		if lk = eng.LeakedIn("lightning-node-connect/gbn", "lightning-node-connect/mailbox"); len(lk) == 0 {
+			break
+		}
+	}
+	if len(lk) > 0 {
+		time.Sleep(5 * time.Second)
+		lk = eng.LeakedIn("lightning-node-connect/gbn", "lightning-node-connect/mailbox")
+	}
+	if len(lk) > 0 {
+		g := lk[0]
+		c.Shard.Violate("leak|mailbox|"+g.CreatedBy(),
+			fmt.Sprintf("25 s after a mailbox session (%v) was stopped, %d goroutine(s) are still parked in gbn/mailbox code; first created by %s in %s", r.rep["script"], len(lk), g.CreatedBy(), g.TopFrame()),
+			map[string]any{"script": r.rep["script"], "stack": g.Stack})
+	}
+	c.Shard.Count("mailbox_sessions_censused", 1)
+	c.Shard.Eval(fmt.Sprintf("M|%v", r.rep["script"]))
 }
